@@ -3,7 +3,7 @@
    executor oracle (pend = IsPodEvicted answers, okf = Evict results); nothing is assumed about
    the task tables, the lists or the oracle. *)
 From Coq Require Import List ZArith Bool.
-From Verif Require Import Lib.SortX C11.Model C11.Spec C11.Proofs C11.ModelEvict C11.SpecEvict C11.ProofsEvict.
+From Verif Require Import Lib.SortX C11.Model C11.Spec C11.Proofs C11.ModelEvict C11.SpecEvict C11.ProofsEvict C11.ModelHist C11.ProofsHist.
 From Coq Require Import Permutation Sorted.
 Import ListNotations.
 Open Scope Z_scope.
@@ -158,6 +158,38 @@ Theorem c11_victims_eligible_cpu : forall c pods pend okf pre ev suf,
                /\ In (i_pod i) pods /\ elig_for c (pt_feature pt) (i_pod i) = true.
 Proof. exact (fun c pods pend okf => strategy_victims_eligible c pods _ pend okf (cpu_ptasks_eligible c pods)). Qed.
 Print Assumptions c11_victims_eligible_cpu.
+
+(* ---------- histories of rounds against the stateful executor (Evictor cache) ---------- *)
+(* for every sequence of task tables and every pattern of rejected eviction calls the model's
+   history passes clauses 1-5, 7 (pending only if accepted earlier), 8 (results truthful) *)
+Theorem c11_hist_model : forall nt nr fails rounds,
+  hist_code nt nr [] (model_hist nt nr fails rounds) = 0
+  /\ (hist_prop_code nt nr (model_hist nt nr fails rounds) = 0
+      \/ hist_prop_code nt nr (model_hist nt nr fails rounds) = 6).
+Proof. exact (fun nt nr fails rounds => conj (hist_code_model nt nr fails rounds) (hist_prop_code_model nt nr fails rounds)). Qed.
+Print Assumptions c11_hist_model.
+
+(* what the decision procedure establishes on ANY observed history: every round is safe, a pod
+   is counted as pending release only if an eviction call for it was accepted in an earlier
+   round, and the accepted API calls are exactly the successful Evict events *)
+Theorem c11_pending_only_after_accept : forall nt nr h,
+  hist_code nt nr [] h = 0 ->
+  forall pre r suf, h = pre ++ r :: suf ->
+    C11_safe (r_tasks r) nt nr (r_obs r)
+    /\ (forall j k, In (EPending j k) (o_events (r_obs r)) ->
+          In (ev_pod (r_tasks r) (EPending j k)) (accepted_before pre))
+    /\ r_api r = accepted (r_tasks r) (o_events (r_obs r)).
+Proof. exact (fun nt nr h H => hist_code_sound nt nr h [] H). Qed.
+Print Assumptions c11_pending_only_after_accept.
+
+(* hence (with clause 5, returned ReleaseList = release of the counted events) a target reported
+   covered is covered by pods whose eviction the API accepted, in this round or an earlier one *)
+Theorem c11_covered_by_accepted : forall nt nr h,
+  hist_code nt nr [] h = 0 ->
+  forall pre r suf ev, h = pre ++ r :: suf -> In ev (o_events (r_obs r)) -> counted ev = true ->
+    In (ev_pod (r_tasks r) ev) (accepted_before (pre ++ [r])).
+Proof. exact counted_accepted. Qed.
+Print Assumptions c11_covered_by_accepted.
 
 (* D6 (known finding): the full-strength clause "every victim releases something its task is
    still short of" is FALSE of the faithful model *)
